@@ -10,7 +10,7 @@ open Dbus Dbus.Spec Dbus.Model Dbus.Proofs.Wire
     the specification's encoding of the value it returns (so no second byte string decodes to
     the same value at that offset), and the value is well-formed: typed, booleans 0/1, strings
     valid UTF-8 / paths / signatures, padding zero, array ≤ 2^26 bytes, nesting ≤ 64. -/
-theorem decode_sound' (e : Endian) (g d : Nat) (t : Ty) (off : Nat) (bs : Bytes) (v : Val) (r : Bytes)
+theorem decode_accepts_only_encodings (e : Endian) (g d : Nat) (t : Ty) (off : Nat) (bs : Bytes) (v : Val) (r : Bytes)
     (h : decode e g d t off bs = some (v, r)) :
     bs = encode e off v ++ r ∧ WFVal e d off v t :=
   (decode_sound e g).1 d t off bs v r h
